@@ -9,31 +9,56 @@ LEAN_MODULES = ['PydlVerif.Props.C04']
 P = 'PydlVerif.C04.'
 THEOREMS = [P + t for t in (
     'assign_nodup', 'assign_mem', 'matchRaw_complete_sound', 'sorted_output', 'greedy_passes_agree', 'greedy_spec',
-    'dec_cover', 'ra_wrap_index', 'ra_cover_linear', 'ra_cover_fixed',
-    'spherematch_complete_partial')]
+    'dec_cover', 'ra_wrap_index', 'ra_cover_linear', 'ra_cover_fixed', 'ra_cover_fixed_of_hav', 'hav_identity',
+    'get_bracket', 'init_shape', 'ra_cover_seam', 'racover_pair', 'seam_room',
+    'spherematch_complete_partial', 'spherematch_complete_grid', 'spherematch_complete', 'spherematch_out_eq',
+    'spherematch_statement')] + [
+    'PydlVerif.Sphere.' + t for t in ('cellIndex_bracket', 'decIndex_bracket', 'chunksInit_facts', 'chunksInit_room',
+                                      'chunksInit_guards', 'ra_cover_band', 'cell_visited', 'getbounds_returns',
+                                      'bandRoom_holds', 'raMargin_le_half', 'cos_ge_near')]
 RULE = ('point-set configurations: all-sky, clustered, RA 0/360 seam, near-polar (|dec|>80, >87), lattice points on the '
-        'computed chunk edges +-1 ulp, the directed RA-margin construction (D5), duplicated points (distance ties), '
-        'permuted copies; match length 1 arcsec..20 deg, chunksize None / 1.0001..10 x matchlength / up to 60 deg, '
+        'computed chunk edges +-1 ulp, second-list points on the first/last declination edge of the grid (upper-boundary '
+        'rule), the directed RA-margin construction (D5), duplicated points (distance ties), permuted copies; match length 1 arcsec..20 deg, chunksize None / 1.0001..10 x matchlength / up to 60 deg, '
         'maxmatch 0,1,2,5. A case is non-trivial when at least one pair is closer than the match length; '
         'distinct = distinct case payloads')
 TRUSTED = ['hand-written model lean/PydlVerif/Model/Sphere.lean tied to the code by the I/O correspondence of this run',
            'libm sin/cos/asin/sqrt and numpy argsort (parameters of the model: any sorting permutation)',
            'the independent oracle uses numpy long double (80-bit) chord-length separations']
-ASSUMPTIONS = ['RA in [0,360), |Dec| < 90, first list has at least 2 points, matchlength > 0',
+ASSUMPTIONS = ['RA in [0,360), |Dec| < 90, first list has at least 2 points, matchlength > 0 (theorems: matchlength <= 180)',
                'pairs with |sep - matchlength| <= 1e-12*matchlength + 1e-12 deg are undecided (float rounding of gcirc)',
-               'completeness in RA is proved under RACover (one wrap cell suffices; see docs/C04.md)']
-LEVEL_TEXT = ('Machine-checked Lean 4 theorems over an executable model of spherematch and of the chunk grid: the pair loop '
-              'returns exactly the close pairs once each whenever the cell lists cover them (Cover), assign never stores an '
-              'index twice and stores it in every visited cell, the maxmatch=0 output is the sorted pair list, the maxmatch=k '
-              'bookkeeping is the distance-ordered greedy selection of the statement, the declination margin covers, the '
-              'wrapped RA index arithmetic visits exactly the computed range, and the corrected RA margin (haversine bound) '
-              'covers every point of the band within the match length - for all sizes and inputs. The Float instance of the '
-              'same model is compared with the real spherematch and chunks attributes on every run, and an independent '
-              'brute-force long-double oracle checks the statement on the real output.')
-LEVEL_NOTE = ('Partial: end-to-end completeness is proved under the hypothesis RACover/Cover (the composition of dec_cover, '
-              'ra_cover_fixed, ra_cover_linear and ra_wrap_index across the 0/360 seam and the claim that one wrap cell '
-              'suffices for chunksize >= 4*matchlength are not composed into one theorem); chunks.__init__ is modelled and '
-              'compared, not proved; IEEE rounding at cell edges is searched by the lattice generator, not provable.')
+               'the end-to-end theorems are about the model run with exact real arithmetic and Mathlib\'s sin/cos/arcsin/sqrt; '
+               'there chunks.__init__ raises when an edge is clipped to +-90 (cos 90 = 0), so polar-cap grids and all '
+               'IEEE rounding are covered by the correspondence and the oracle only']
+LEVEL_TEXT = ('Machine-checked Lean 4 theorems over an executable model of spherematch and of the chunk grid. Combinatorial '
+              'core (all sizes, any data): the pair loop returns exactly the close pairs once each whenever the cell lists '
+              'cover them, assign never stores an index twice and stores it in every visited cell, the maxmatch=0 output is '
+              'the sorted pair list for ANY sorting permutation, the maxmatch=k bookkeeping is the distance-ordered greedy '
+              'selection of the statement. Grid, over any ordered field with floor and arbitrary cos/sin (init_shape, '
+              'chunksInit_room): chunks.__init__ builds nDec>=3 equally spaced declination bands from decMin to decMax '
+              'exactly, one minSize clear of all points or clipped to the pole, and per band nRa>=1 equally spaced RA cells '
+              'that embrace [0,360] or stay a minimal cell clear of the seam and of all points; the floor-formula index of '
+              'get/getbounds names the cell whose tabulated edges bracket the point (get_bracket). Over the reals with '
+              'Mathlib\'s functions: the haversine identity for the model\'s own gcirc (hav_identity: sin^2(d/2) = hav(ddec) + '
+              'cos cos hav(dra), 0<=d<=180, cos d = inner product), hence the corrected RA margin covers without any '
+              'hypothesis (ra_cover_fixed); one band including the 0/360 seam needs at most one wrap cell (ra_cover_seam); '
+              'with chunksize >= 4*matchlength the RA margin is at most half a minimal cell, so every point with a close '
+              'partner stays inside the RA extent of the bands it visits and has room at the seam (seam_room); composed: '
+              'spherematch_complete / spherematch_statement - whenever the model\'s spherematch returns on inputs with '
+              'RA in [0,360), |Dec|<90, matchlength<=180, its output is, for maxmatch<=0, every pair closer than matchlength '
+              'exactly once in non-decreasing order of separation and, for maxmatch=k>0, the greedy selection from that '
+              'list - hypotheses only about the inputs and the argsort contract. The Float instance of the same model is '
+              'compared with the real spherematch and chunks attributes on every run, an independent brute-force long-double '
+              'oracle checks the statement on the real output, and the statements of init_shape / seam_room are audited '
+              'numerically on every real grid (counters gridfacts:*, room:*).')
+LEVEL_NOTE = ('RACover is no longer a hypothesis. What remains outside the proofs: (1) the end-to-end theorems speak about the '
+              'model evaluated in exact real arithmetic; IEEE rounding (cell edges, gcirc near the match length) is searched '
+              'by the lattice/top-edge generators and the oracle, not provable; (2) over the reals chunks.__init__ raises for '
+              'grids clipped to +-90 (cos 90 = 0 exactly, the binary64 code lives on cos(pi/2)=6e-17>0), so polar-cap grids '
+              'are covered only by the band-level theorems (ra_cover_seam, cell_visited hold for any grid with the stated '
+              'facts), the numeric audit and the oracle; (3) that the real-number run returns at all on a given input is not '
+              'exhibited by a Lean example (it is not executable); the same generic model returns at Float on every '
+              'generated input; (4) matchlength <= 180 and second-list RA in [0,360) are hypotheses (np.fmod is modelled on '
+              '[0,720) only).')
 
 TOL_REL = 1e-12
 TOL_ABS = 1e-12
@@ -298,6 +323,27 @@ def _gen_lattice(r):
     return c
 
 
+def _gen_topedge(r):
+    """second-list points ON the first and the last declination edge of the grid (+-1 ulp): the upper-boundary rule of
+    get/getbounds (a point on decBounds[nDec] belongs to the last slice; below decBounds[0] / above it: dropped)"""
+    base = _gen_random(r, str(r.choice(['cluster', 'seam', 'polar80'])))
+    try:
+        ch = _grid_of(base)
+    except Exception:
+        return base
+    ra_add, dec_add = [], []
+    for e in (float(ch.decBounds[ch.nDec]), float(ch.decBounds[0])):
+        for u in (-1.0, 0.0, 1.0):
+            e2 = float(np.nextafter(e, e + u)) if u else e
+            for a in [base['ra1'][int(k)] for k in r.integers(0, len(base['ra1']), 2)]:
+                ra_add.append(a)
+                dec_add.append(e2)
+    c = dict(base, kind='topedge')
+    c['ra2'] = base['ra2'] + ra_add
+    c['dec2'] = base['dec2'] + [min(89.9999, max(-89.9999, x)) for x in dec_add]
+    return c
+
+
 def _gen_d5(r):
     """directed RA-margin construction: p just inside an RA cell edge on the poleward edge of its band,
     q in the next cell at gap*cosDecMin >= matchlength > separation"""
@@ -385,7 +431,7 @@ def _cases(ctx):
     r = np.random.default_rng(ctx.rng.getrandbits(64))
     n = ctx.n(1500, 40000)
     mix = (['cluster'] * 5 + ['seam'] * 4 + ['polar80'] * 3 + ['polar87'] * 3 + ['allsky'] * 2 + ['lattice'] * 4 +
-           ['d5'] * 3 + ['ties'] * 2 + ['polar-smallchunk'] * 3)
+           ['d5'] * 3 + ['ties'] * 2 + ['polar-smallchunk'] * 3 + ['topedge'] * 2)
     out = []
     for _ in range(n):
         k = mix[int(r.integers(len(mix)))]
@@ -393,6 +439,8 @@ def _cases(ctx):
             c = _gen_lattice(r)
         elif k == 'd5':
             c = _gen_d5(r)
+        elif k == 'topedge':
+            c = _gen_topedge(r)
         elif k == 'ties':
             c = _gen_ties(r)
         elif k == 'polar-smallchunk':
@@ -428,16 +476,125 @@ def _line(c):
             'maxmatch': c['mm']}
 
 
+def _room(case, g, S, tol):
+    """numeric audit (float64, public chunks attributes) of `BandRoom`, the one hypothesis left in the Lean theorem
+    spherematch_complete: every second-list point with a close partner lies inside the RA extent of each band it
+    visits, and its RA margin there is at most one cell (band = [0,360]) or at most the gap the band leaves around
+    the seam.  Returns counters only: a failure of the hypothesis is not a failure of the property."""
+    out = {}
+    if 'err' in g:
+        return out
+    db, nDec, off, ml = g['decBounds'], g['nDec'], g['raOffset'], case['ml']
+
+    def cosmin(i):
+        e = db[i] if abs(db[i]) > abs(db[i + 1]) else db[i + 1]
+        return math.cos(math.radians(e))
+
+    def band_of(dec):
+        d = int(math.floor((dec - db[0]) * float(nDec) / (db[nDec] - db[0])))
+        if d == nDec and dec <= db[nDec]:
+            d = nDec - 1
+        return d
+    close = S < ml - tol
+    for k in range(len(case['ra2'])):
+        partners = np.nonzero(close[:, k])[0]
+        if len(partners) == 0:
+            continue
+        out['room:points-with-partner'] = out.get('room:points-with-partner', 0) + 1
+        dec, aq = case['dec2'][k], math.fmod(case['ra2'][k] + off, 360.0)
+        d0 = band_of(dec)
+        if d0 < 0 or d0 > nDec - 1:
+            out['room:dec-outside-grid'] = out.get('room:dec-outside-grid', 0) + 1
+            continue
+        lo = hi = d0
+        while dec - db[lo] < ml and lo > 0:
+            lo -= 1
+        while db[hi + 1] - dec < ml and hi < nDec - 1:
+            hi += 1
+        pb = {band_of(case['dec1'][int(i)]) for i in partners}
+        bad = set()
+        for d in range(lo, hi + 1):
+            b, n = g['raBounds'][d], g['nRa'][d]
+            sh = math.sin(math.radians(0.5 * ml)) / math.sqrt(max(cosmin(d) * math.cos(math.radians(dec)), 1e-300))
+            M = 2.0 * math.degrees(math.asin(sh)) if sh < 1.0 else 360.0
+            if not (b[0] <= aq < b[n]):
+                bad.add('room:outside-RA-extent-of-a-visited-band')
+            if not ((b[0] == 0.0 and b[n] == 360.0 and M <= b[1] - b[0]) or M <= b[0] + 360.0 - b[n]):
+                bad.add('room:no-seam-room-in-a-visited-band')
+                if d in pb:
+                    bad.add('room:no-seam-room-in-a-partner-band')
+        if not pb <= set(range(lo, hi + 1)):
+            bad.add('room:partner-band-not-visited')
+        for x in bad or {'room:BandRoom-holds'}:
+            out[x] = out.get(x, 0) + 1
+    return out
+
+
+def _gridfacts(case, g):
+    """numeric audit (float64, tolerance 1e-9) of the STATEMENTS of the Lean theorems init_shape / chunksInit_room
+    (structures GridFacts, GridRoom) on the grid the real chunks.__init__ built: returns the name of the first field
+    that does not hold, or None.  Polar-cap grids (an edge clipped to +-90) are outside the real-number theorem only
+    through cosDecMin > 0; every other field is checked for them as well."""
+    if 'err' in g:
+        return None
+    ms = _cs_eff(case['ml'], case['cs'])
+    db, nDec, off = g['decBounds'], g['nDec'], g['raOffset']
+    tol = 1e-9 * max(1.0, ms)
+
+    def lin(b, n):
+        return all(abs(b[k] - (b[0] + (b[n] - b[0]) * k / n)) <= 1e-9 * (1 + abs(b[k])) for k in range(n + 1))
+    if nDec < 3 or len(db) != nDec + 1 or not db[0] < db[nDec] or not lin(db, nDec):
+        return 'dec_edges'
+    d1 = case['dec1']
+    if not (db[0] == -90.0 or (db[0] > -90.0 and min(d1) >= db[0] + ms - tol and db[0] >= -90.0 + 3 * ms - tol)):
+        return 'dec_lo'
+    if not (db[nDec] == 90.0 or (db[nDec] < 90.0 and max(d1) <= db[nDec] - ms + tol and db[nDec] <= 90.0 - 3 * ms + tol)):
+        return 'dec_hi'
+    if off not in (0.0, 60.0, 120.0, 180.0, 240.0, 300.0):
+        return 'off'
+    if len(g['nRa']) != nDec or len(g['raBounds']) != nDec:
+        return 'sizes'
+    cur = [math.fmod(a + off, 360.0) for a in case['ra1']]
+    for d in range(nDec):
+        b, n = g['raBounds'][d], g['nRa'][d]
+        e = db[d] if abs(db[d]) > abs(db[d + 1]) else db[d + 1]
+        c = math.cos(math.radians(e))
+        if not c > 0:
+            return 'cpos'
+        if n < 1 or len(b) != n + 1 or not b[0] < b[n] or not lin(b, n):
+            return 'ra_edges'
+        w = ms / c
+        emb = b[0] == 0.0 and b[n] == 360.0
+        if not (emb or (w < b[0] + tol and b[n] < 360.0 - w + tol)):
+            return 'extent'
+        if not n <= 3 + c * 360.0 / ms + 1e-9:
+            return 'ncells'
+        if not (emb or all(b[0] + w - tol <= a <= b[n] - w + tol for a in cur)):
+            return 'room'
+    return None
+
+
 def _eval(case):
     """real code + oracle for one case (runs in a worker process)"""
     impl = _impl(case)
     viol, nclose, S, tol = _oracle(case, impl)
+    try:
+        room = _room(case, impl.get('grid', {'err': 1}), S, tol)
+    except Exception as e:        # the audit must never break the check
+        room = {'room:audit-error:' + type(e).__name__: 1}
+    try:
+        gf = _gridfacts(case, impl.get('grid', {'err': 1}))
+        room['gridfacts:' + ('hold' if gf is None else 'VIOLATED:' + gf)] = 1
+        if gf is not None:
+            room['_gridfacts_violated'] = gf
+    except Exception as e:
+        room['gridfacts:audit-error:' + type(e).__name__] = 1
     # pairs whose separation is within the undecided band, and near-ties of the close separations (greedy order)
     ml = case['ml']
     und = [[int(a), int(b)] for a, b in zip(*np.nonzero(np.abs(S - ml) <= max(tol, 1e-9 * ml)))]
     close = np.sort(np.asarray(S[S < ml + tol], dtype='d'))
     ties = bool(len(close) > 1 and np.any(np.diff(close) <= 1e-9 * (1 + close[1:])))
-    return {'impl': impl, 'viol': viol, 'nclose': nclose, 'undecided': und, 'ties': ties}
+    return {'impl': impl, 'viol': viol, 'nclose': nclose, 'undecided': und, 'ties': ties, 'room': room}
 
 
 def _fails_with(sig):
@@ -554,6 +711,12 @@ def _process(ctx, cases, search=True):
         ctx.count('close-pairs', ev['nclose'])
         if ev['ties']:
             ctx.count('cases-with-distance-ties')
+        for key, val in ev.get('room', {}).items():
+            if key == '_gridfacts_violated':
+                # the real grid contradicts the statement of init_shape / chunksInit_room: model and code differ
+                ctx.disagree('gridfacts:' + val, c, ev['impl'].get('grid'), 'GridFacts/GridRoom field %s' % val)
+            else:
+                ctx.count(key, val)
         if isinstance(m, dict) and 'nRa' in m:
             ctx.count('model:cells-with-wrap-range' if any(n > 1 for n in m['nRa']) else 'model:single-cell-bands')
             if m['nRa'][0] == 1 or m['nRa'][-1] == 1:
